@@ -67,6 +67,24 @@ Covered(p) == \A x \in p.from..(p.to - 1) : \E m \in p.members : m.s <= x /\ x <
 Apart(p, q) == p.loc # q.loc \/ p.to < q.from \/ q.to < p.from
 
 (***************************************************************************)
+(* Pair filters (Piler.Piles(f)).  A filter is handed a pair and may read   *)
+(* where its two features lie: once piled, Location() of a feature is its   *)
+(* pile.  The pile-reading filters keep a pair according to the span        *)
+(* (To - From) of the piles of its A and its B feature; what such a filter  *)
+(* lets through is therefore defined by the components:                     *)
+(* SpanIn(F, f) = the span of the hull of f's component.                    *)
+(* (PilerPiles.tla: the two passes of Piles - place every feature, then     *)
+(* consult the filter - as a state machine.)                                *)
+(***************************************************************************)
+SpanKinds == {"spanA", "spanB", "spanBoth", "spanAny"}
+KeepSpan(kind, L, sa, sb) ==
+  CASE kind = "spanA" -> sa >= L
+    [] kind = "spanB" -> sb >= L
+    [] kind = "spanBoth" -> sa >= L /\ sb >= L
+    [] kind = "spanAny" -> sa >= L \/ sb >= L
+SpanIn(F, f) == LET C == Grow({f}, F) IN HullTo(C) - HullFrom(C)
+
+(***************************************************************************)
 (* Operational side (Piler.Add, Piler.merge)                                *)
 (***************************************************************************)
 CONSTANT Variant
